@@ -79,9 +79,11 @@ func VerifC19_listing() {
 		extra = append(extra, n)
 	}
 	// further application names (concrete), so that the registry's own storage has been grown
-	nfix := vfChoice("nfixed", 7)
-	fixedNames := []string{"zz-app", "zz-app.wide", "zz-app.wide.x", "zz-b", "zz-c", "zz-d"}
-	glyphs := []string{"1", "2", "3", "4", "5", "6"}
+	// (the last two differ from a renderer's name in letter case only: they are registered names all the
+	// same and must be listed; as a style they select the renderer, which renders fine)
+	nfix := vfChoice("nfixed", 9)
+	fixedNames := []string{"zz-app", "zz-app.wide", "zz-app.wide.x", "zz-b", "zz-c", "zz-d", "Json", "HTML"}
+	glyphs := []string{"1", "2", "3", "4", "5", "6", "7", "8"}
 	for i := 0; i < nfix; i++ {
 		d := decoration.Decoration{Horizontal: "-", Vertical: "|", CrossPiece: glyphs[i]}
 		d.Populate()
@@ -129,7 +131,7 @@ func VerifC19_listing() {
 			vfAssert(out != "", "advertised-style-renders")
 		}
 		// an application-registered name selects the decoration registered under exactly that name
-		for i := 0; i < nfix; i++ {
+		for i := 0; i < nfix && i < 6; i++ {
 			if name == fixedNames[i] {
 				d := decoration.Decoration{Horizontal: "-", Vertical: "|", CrossPiece: glyphs[i]}
 				d.Populate()
